@@ -5,10 +5,13 @@ import (
 	"fmt"
 	"helm.sh/helm/v4/pkg/action"
 	"helm.sh/helm/v4/pkg/storage/driver"
+	"os"
+	"path/filepath"
 	"sort"
 	"strings"
 
 	chart "helm.sh/helm/v4/pkg/chart/v2"
+	"helm.sh/helm/v4/pkg/chart/v2/loader"
 	chartutil "helm.sh/helm/v4/pkg/chart/v2/util"
 	"helm.sh/helm/v4/pkg/engine"
 )
@@ -407,6 +410,12 @@ func depsCase(m *Model, rep *Report, g *genDChart, vals map[string]any, nontrivi
 		return
 	}
 	rep.H("values-ok")
+	// `helm lint` computes the same values: the root chart gets a schema that allows exactly the top-level keys the
+	// library path arrives at (nothing about their contents); lint must not find any other key there -- a disabled
+	// dependency's section, or an aliased dependency's section under its original name (trees without a chart listed twice: those carry the known alias-copy findings)
+	if idx%3 == 2 && !hasRepeat(g) {
+		lintSeesSameKeys(rep, g, vals, gotVals, cs, seed, idx)
+	}
 	// what each chart's templates see, and which charts contribute templates at all
 	var files map[string]string
 	if p := safely(func() { files, err = engine.Render(c, rv) }); p != "" || err != nil {
@@ -561,5 +570,56 @@ func depsCRDInstall(rep *Report, g *genDChart, vals map[string]any, tree any, cs
 	}
 	if len(missing) > 0 {
 		rep.Issue(Issue{Kind: "monitor", Fingerprint: "C11:enabled-crds-missing", What: fmt.Sprintf("install did not create the CRDs of enabled charts: %v", missing), Case: cs, Model: sortedKeys(want), Impl: sortedKeys(got), Seed: seed, Index: idx})
+	}
+}
+
+func lintSeesSameKeys(rep *Report, g *genDChart, vals map[string]any, finalVals any, cs map[string]any, seed uint64, idx int) {
+	fv, ok := finalVals.(chartutil.Values)
+	var keys map[string]any
+	if ok {
+		keys = map[string]any(fv)
+	} else if m, ok := finalVals.(map[string]any); ok {
+		keys = m
+	} else {
+		return
+	}
+	props := map[string]any{}
+	for k := range keys {
+		props[k] = map[string]any{}
+	}
+	schema, _ := json.Marshal(map[string]any{"$schema": "http://json-schema.org/draft-07/schema#", "type": "object", "additionalProperties": false, "properties": props})
+	c := withValuesRaw(g.real())
+	c.Schema = schema
+	dir, err := os.MkdirTemp("", "corr-deps-lint")
+	if err != nil {
+		return
+	}
+	defer os.RemoveAll(dir)
+	if err := chartutil.SaveDir(c, dir); err != nil {
+		rep.H("lint:savedir-error")
+		return
+	}
+	var res *action.LintResult
+	if p := safely(func() { res = action.NewLint().Run([]string{filepath.Join(dir, c.Name())}, deepCopyMap(vals)) }); p != "" {
+		rep.Issue(Issue{Kind: "monitor", Fingerprint: "C20:panic:Lint", What: p, Case: cs, Seed: seed, Index: idx})
+		return
+	}
+	rep.H("lint:run")
+	for _, msg := range res.Messages {
+		if t := msg.Error(); strings.Contains(t, "dditional propert") {
+			var diskKeys []string
+			if lc, err := loader.LoadDir(filepath.Join(dir, c.Name())); err == nil {
+				uv := deepCopyMap(vals)
+				if chartutil.ProcessDependencies(lc, uv) == nil {
+					lc.Schema = nil
+					if rv, err := chartutil.ToRenderValues(lc, uv, chartutil.ReleaseOptions{Name: "r", Namespace: "ns"}, nil); err == nil {
+						diskKeys = sortedKeys(map[string]any(rv["Values"].(chartutil.Values)))
+					}
+				}
+			}
+			_ = diskKeys
+			rep.Issue(Issue{Kind: "monitor", Impl: diskKeys, Fingerprint: "C11:lint-sees-other-values", What: "helm lint validates / renders the root chart with top-level value keys the install path does not have (a disabled dependency's defaults, or a dependency under its un-aliased name): " + trunc(t, 300), Case: cs, Model: sortedKeys(keys), Seed: seed, Index: idx})
+			return
+		}
 	}
 }
